@@ -123,11 +123,6 @@ Section Steps.
   Notation Sem_nodes := (sem_nodes msem dotsem callsem).
   Notation inspect_clo := (inspect_clo unames msem dotsem callsem awaitsem).
 
-  (* user semantics never return a generated closure (see RefineChain) *)
-  Hypothesis msem_nc : forall m tf r ds, leaves not_clo (msem m tf r ds).
-  Hypothesis dotsem_nc : forall o sn r, leaves not_clo (dotsem o sn r).
-  Hypothesis callsem_nc : forall f ds, leaves not_clo (callsem f ds).
-
   Variable cfg : config.
   Variable j : jout.
   Variable sp : sprog.
@@ -194,8 +189,7 @@ Section Steps.
     inv_names : forall b, b < n -> ρ (bname b) = nth b st None;
     inv_inspect : is_async cfg = false -> ρ n_inspect = Some (DFn inspect_clo);
     inv_tb : is_spawn cfg = true -> is_async cfg = false -> ρ n_tb = Some DTb;
-    inv_tokio : is_spawn cfg = true -> is_async cfg = true -> ρ n_spawn_tokio = Some DSpawnTokio;
-    inv_nc : forall b d, nth b st None = Some d -> not_clo d
+    inv_tokio : is_spawn cfg = true -> is_async cfg = true -> ρ n_spawn_tokio = Some DSpawnTokio
   }.
 
   (* binding a generated temporary keeps the invariant *)
@@ -204,7 +198,7 @@ Section Steps.
 
   Lemma Inv_upd_temp ρ st x d : Inv ρ st -> temp_name x -> Inv (upd ρ x d) st.
   Proof.
-    intros [H1 H2 H3 H4 H5 H6] (g & -> & Hg & Hi & Ht & Hk). split; auto.
+    intros [H1 H2 H3 H4 H5] (g & -> & Hg & Hi & Ht & Hk). split; auto.
     - intros b Hb. rewrite upd_other; auto. apply bname_not_gname. exact Hg.
     - intros Ha. rewrite upd_other; auto. rewrite n_inspect_g. apply gname_neq. congruence.
     - intros Hs Ha. rewrite upd_other; auto. rewrite n_tb_g. apply gname_neq. congruence.
@@ -246,9 +240,9 @@ Section Steps.
     destruct b; cbn [set1 List.length]; [reflexivity|]. rewrite IH. reflexivity.
   Qed.
 
-  Lemma Inv_set1 ρ st b d : Inv ρ st -> b < n -> not_clo d -> Inv (upd ρ (bname b) d) (set1 st b d).
+  Lemma Inv_set1 ρ st b d : Inv ρ st -> b < n -> Inv (upd ρ (bname b) d) (set1 st b d).
   Proof.
-    intros [H1 H2 H3 H4 H5 H6] Hb Hd. split.
+    intros [H1 H2 H3 H4 H5] Hb. split.
     - rewrite set1_length. exact H1.
     - intros b' Hb'. destruct (Nat.eq_dec b' b) as [->|Hne].
       + rewrite upd_same, nth_set1_same; [reflexivity|lia].
@@ -256,21 +250,17 @@ Section Steps.
     - intros Ha. rewrite upd_other; auto. apply not_eq_sym. rewrite n_inspect_g. apply bname_not_gname. discriminate.
     - intros Hs Ha. rewrite upd_other; auto. apply not_eq_sym. rewrite n_tb_g. apply bname_not_gname. discriminate.
     - intros Hs Ha. rewrite upd_other; auto. apply not_eq_sym. rewrite n_spawn_tokio_g. apply bname_not_gname. discriminate.
-    - intros b' d' Hn. destruct (Nat.eq_dec b' b) as [->|Hne].
-      + rewrite nth_set1_same in Hn by lia. inversion Hn; subst. exact Hd.
-      + rewrite nth_set1_other in Hn by exact Hne. eapply H6; eauto.
   Qed.
 
   Lemma Inv_set_all : forall acts ds ρ st,
-    Inv ρ st -> (forall b, In b acts -> b < n) -> Forall not_clo ds ->
+    Inv ρ st -> (forall b, In b acts -> b < n) ->
     Inv (upd_list ρ (map bname acts) ds) (set_all st acts ds).
   Proof.
-    induction acts as [|b r IH]; intros ds ρ st HI Hlt Hnc; [exact HI|].
+    induction acts as [|b r IH]; intros ds ρ st HI Hlt; [exact HI|].
     destruct ds as [|d ds]; [exact HI|]. cbn [map upd_list set_all].
-    inversion Hnc; subst. apply IH.
+    apply IH.
     - apply Inv_set1; auto. apply Hlt. left. reflexivity.
     - intros b' Hb'. apply Hlt. right. exact Hb'.
-    - assumption.
   Qed.
 
   (* ---- snapshots ---- *)
@@ -399,13 +389,6 @@ Section Steps.
   Lemma bname_not_ew b b' e i : bname b <> n_ew b' e i.
   Proof. rewrite n_ew_g. apply bname_not_gname. discriminate. Qed.
 
-  Lemma start_nc st b : (forall b d, nth b st None = Some d -> not_clo d) -> leaves not_clo (start sp st b).
-  Proof.
-    intros H. unfold start, get. destruct (is_async (sp_cfg sp)).
-    - constructor. exact I.
-    - destruct (nth b st None) as [d|] eqn:E; constructor. eapply H; eauto.
-  Qed.
-
   Lemma chain_in_step k ρ st cp b ds c0 :
     Inv ρ st -> In b (actives sp k) -> map fst cp = step_keys k (actives sp k) ->
     render_nodes (j_cfg j) b (tree sp b k) ([], wrap_into_block j (RVar (nth b vars ""))) = Ok (ds, c0) ->
@@ -417,18 +400,11 @@ Section Steps.
     rewrite <- (start_sem ρ st b HI Hbn (bname_not_ew b) cp).
     rewrite <- (snap_inv ρ st HI).
     rewrite (r_cfg_sp _ _ _ HR), <- (r_cfg_j _ _ _ HR).
-    eapply (render_nodes_sem unames msem dotsem callsem awaitsem msem_nc dotsem_nc callsem_nc unames_user); eauto.
+    eapply (render_nodes_sem unames msem dotsem callsem awaitsem unames_user); eauto.
     - apply chain_env_ext; [exact unames_user| |].
       + rewrite (r_cfg_j _ _ _ HR). apply (inv_inspect _ _ HI).
       + rewrite Hk. apply actives_keys_nodup.
     - intros key Hin. apply lookup_cap_in. rewrite Hk. unfold step_keys. apply in_flat_map. eauto.
-    - rewrite (start_sem ρ st b HI Hbn (bname_not_ew b) cp). apply start_nc. apply (inv_nc _ _ HI).
-  Qed.
-
-  Lemma chain_nc sn cp k st b : (forall b d, nth b st None = Some d -> not_clo d) ->
-    leaves not_clo (chain msem dotsem callsem sp sn cp k st b).
-  Proof.
-    intros H. unfold chain. apply sem_nodes_nc; auto. apply start_nc. exact H.
   Qed.
 
   (* ---- the step statement list ---- *)
@@ -485,7 +461,7 @@ Section Steps.
     is_async cfg = false -> is_spawn cfg && Nat.ltb 1 (active_count j k) = false ->
     Inv ρ st -> k < j_max j -> gen_step j k vars (n_sr k) = Ok step ->
     forall A (K : env -> comp A) (K' : dval -> comp A),
-      (forall ρ' srv, Inv ρ' st -> ρ' (n_sr k) = Some srv -> not_clo srv -> K ρ' = K' srv) ->
+      (forall ρ' srv, Inv ρ' st -> ρ' (n_sr k) = Some srv -> K ρ' = K' srv) ->
       bind (execs step ρ) K = bind (step_result msem dotsem callsem awaitsem sp k st) K'.
   Proof.
     intros Ha Hs HI Hk Hg A K K' HK.
@@ -507,14 +483,14 @@ Section Steps.
     - (* one active branch *)
       inversion Hchain as [|c ? cs' ? Hc Hrest]; subst. inversion Hrest; subst.
       rewrite den_RTuple, Hc. cbn [List.length Nat.ltb Nat.leb].
-      eapply bind_ext_leaves; [apply chain_nc; apply (inv_nc _ _ HI)|]. intros d Hd.
-      apply HK; [apply Inv_upd_temp; [exact HI'|apply temp_sr]|apply upd_same|exact Hd].
+      apply bind_ext. intros d.
+      apply HK; [apply Inv_upd_temp; [exact HI'|apply temp_sr]|apply upd_same].
     - (* several *)
       inversion Hchain as [|c1 ? cs' ? Hc1 Hrest]; subst. inversion Hrest as [|c2 ? cs'' ? Hc2 Hrest']; subst.
       rewrite den_RTuple. cbn [List.length Nat.ltb Nat.leb].
       rewrite dens_mapM. rewrite (mapM_Forall2 _ _ _ _ Hchain). nb.
       apply bind_ext. intros ds. unfold vals_tuple. destruct (all_vals ds) as [vs|]; nb; [|reflexivity].
-      apply HK; [apply Inv_upd_temp; [exact HI'|apply temp_sr]|apply upd_same|exact I].
+      apply HK; [apply Inv_upd_temp; [exact HI'|apply temp_sr]|apply upd_same].
   Qed.
 
   (* ---- destructuring the step result over the active branches ---- *)
@@ -528,13 +504,13 @@ Section Steps.
   Qed.
 
   Lemma extract_refines k ρ st srv :
-    Inv ρ st -> ρ (n_sr k) = Some srv -> not_clo srv -> k < j_max j ->
+    Inv ρ st -> ρ (n_sr k) = Some srv -> k < j_max j ->
     forall A (K : env -> comp A) (K' : list dval -> comp A),
       (forall ρ' ds, Inv ρ' (set_all st (actives sp k) ds) -> List.length ds = List.length (actives sp k) ->
                      K ρ' = K' ds) ->
       bind (X (extract_step j (n_sr k) pats k) ρ) K = bind (extract (actives sp k) srv) K'.
   Proof.
-    intros HI Hsr Hnc Hk A K K' HK.
+    intros HI Hsr Hk A K K' HK.
     rewrite extract_pats, exec_SLet, den_RVar, Hsr. nb. rewrite bind_pat_tuple.
     pose proof (rel_actives_nonempty _ _ _ HR k Hk) as Hne.
     pose proof (rel_actives_lt _ _ _ HR k) as Hlt.
@@ -543,8 +519,7 @@ Section Steps.
     destruct (actives sp k) as [|b1 [|b2 r]] eqn:Eacts; [congruence| |].
     - cbn [map extract]. rewrite (bind_pat_var _ _ _ _ (bname_pat_var b1)). nb.
       apply HK; [|reflexivity].
-      apply (Inv_set_all [b1] [srv] ρ st HI); [rewrite <- Eacts in *; exact Hlt|].
-      constructor; [exact Hnc|constructor].
+      apply (Inv_set_all [b1] [srv] ρ st HI). rewrite <- Eacts in *; exact Hlt.
     - unfold extract.
       remember (b1 :: b2 :: r) as acts.
       assert (Hshape : forall (T : Type) (x : rpat -> T) (y : T),
@@ -555,8 +530,7 @@ Section Steps.
       rewrite (bind_pats_vars _ _ vs ρ Hvars). rewrite map_length.
       destruct (Nat.eqb (List.length vs) (List.length acts)) eqn:El; nb; [|reflexivity].
       apply HK.
-      + apply Inv_set_all; [exact HI|exact Hlt|]. apply Forall_forall. intros d Hd.
-        apply in_map_iff in Hd. destruct Hd as (v & <- & _). exact I.
+      + apply Inv_set_all; [exact HI|exact Hlt].
       + rewrite map_length. apply Nat.eqb_eq. exact El.
   Qed.
 
@@ -593,7 +567,7 @@ Section Steps.
   Definition step_hyp : Prop :=
     forall k ρ st step, Inv ρ st -> k < j_max j -> gen_step j k vars (n_sr k) = Ok step ->
     forall A (K : env -> comp A) (K' : dval -> comp A),
-      (forall ρ' srv, Inv ρ' st -> ρ' (n_sr k) = Some srv -> not_clo srv -> K ρ' = K' srv) ->
+      (forall ρ' srv, Inv ρ' st -> ρ' (n_sr k) = Some srv -> K ρ' = K' srv) ->
       bind (execs step ρ) K = bind (step_result msem dotsem callsem awaitsem sp k st) K'.
 
   Lemma gen_steps_some k fuel r : gen_steps j pats vars k (S fuel) = Ok r -> exists b, r = Some b.
@@ -633,15 +607,15 @@ Section Steps.
     - (* last step *)
       cbn in En. inversion En; subst next. inversion Ej; subst ss e.
       rewrite den_RBlock, execs_app. nb. cbn [Nat.eqb].
-      apply (Hstep k ρ st step HI Hkm Es). intros ρ1 srv HI1 Hsr Hnc.
+      apply (Hstep k ρ st step HI Hkm Es). intros ρ1 srv HI1 Hsr.
       cbn [execs]. nb.
-      apply (extract_refines k ρ1 st srv HI1 Hsr Hnc Hkm). intros ρ2 ds HI2 _.
+      apply (extract_refines k ρ1 st srv HI1 Hsr Hkm). intros ρ2 ds HI2 _.
       apply final_tuple_sem. exact HI2.
     - destruct (gen_steps_some _ _ _ En) as ([nss ne] & ->). inversion Ej; subst ss e.
       rewrite den_RBlock, !execs_app. nb. cbn [Nat.eqb].
-      apply (Hstep k ρ st step HI Hkm Es). intros ρ1 srv HI1 Hsr Hnc.
+      apply (Hstep k ρ st step HI Hkm Es). intros ρ1 srv HI1 Hsr.
       cbn [execs]. nb.
-      apply (extract_refines k ρ1 st srv HI1 Hsr Hnc Hkm). intros ρ2 ds HI2 _.
+      apply (extract_refines k ρ1 st srv HI1 Hsr Hkm). intros ρ2 ds HI2 _.
       rewrite <- den_RBlock. apply (IH (S k) nss ne En); [lia|exact HI2].
   Qed.
 
@@ -773,7 +747,6 @@ Section Steps.
       rewrite n_inspect_g, n_tb_g. apply gname_neq. discriminate.
     - intros Hs _. rewrite Hs. cbv zeta. apply upd_same.
     - intros _ Ha'. congruence.
-    - intros b d Hn. rewrite st0_nth in Hn. discriminate.
   Qed.
 
   Theorem gen_output_sync e :
@@ -992,7 +965,7 @@ Section Steps.
       rewrite den_RGlue, (den_bname ρ st b HI Hb). apply bind_ext. intros d.
       rewrite dens_cons, den_RClosure, dens_nil. nb. rewrite glue_map. f_equal.
       extensionality vs. destruct vs as [|v [|]]; try reflexivity.
-      rewrite Hret with (st := set1 st b (DV v)); [reflexivity|]. apply Inv_set1; auto. exact I.
+      rewrite Hret with (st := set1 st b (DV v)); [reflexivity|]. apply Inv_set1; auto.
     - cbn [map] in Ht, IH. rewrite transposer_cons2 in Ht.
       destruct (transposer (bname b2 :: map bname r') ret) as [acc|] eqn:Eacc; [|discriminate Ht].
       inversion Ht; subst t. cbn [transpose].
@@ -1001,7 +974,7 @@ Section Steps.
       extensionality vs. destruct vs as [|v [|]]; try reflexivity.
       rewrite (IH acc eq_refl) with (st := set1 st b (DV v)); [reflexivity| |].
       + intros b' Hb'. apply Hlt. right. exact Hb'.
-      + apply Inv_set1; auto. exact I.
+      + apply Inv_set1; auto.
   Qed.
 
   (* ---- reading the extracted values back from the environment ---- *)
@@ -1066,18 +1039,18 @@ Section Steps.
       replace (Nat.ltb k (j_max j - 1)) with false in Ej by (symmetry; apply Nat.ltb_ge; lia).
       destruct Ej as (t & Etr & Eb). inversion Eb; subst ss e.
       rewrite den_RBlock, execs_app. nb. cbn [Nat.eqb].
-      apply (Hstep k ρ st step HI Hkm Es). intros ρ1 srv HI1 Hsr Hnc.
+      apply (Hstep k ρ st step HI Hkm Es). intros ρ1 srv HI1 Hsr.
       cbn [execs]. nb.
-      apply (extract_refines k ρ1 st srv HI1 Hsr Hnc Hkm). intros ρ2 ds HI2 _.
+      apply (extract_refines k ρ1 st srv HI1 Hsr Hkm). intros ρ2 ds HI2 _.
       rewrite (rel_n_trees _ _ _ HR).
       apply (transposer_sem (tuple_of vars) final_tuple_sem (seq 0 n) t Etr); [|exact HI2].
       intros b Hb. apply in_seq in Hb. lia.
     - replace (Nat.ltb k (j_max j - 1)) with true in Ej by (symmetry; apply Nat.ltb_lt; lia).
       destruct Ej as (nss & ne & -> & Eb). inversion Eb; subst ss e.
       rewrite den_RBlock, execs_app. nb. cbn [Nat.eqb].
-      apply (Hstep k ρ st step HI Hkm Es). intros ρ1 srv HI1 Hsr Hnc.
+      apply (Hstep k ρ st step HI Hkm Es). intros ρ1 srv HI1 Hsr.
       cbn [execs]. nb.
-      apply (extract_refines k ρ1 st srv HI1 Hsr Hnc Hkm). intros ρ2 ds HI2 Hlen.
+      apply (extract_refines k ρ1 st srv HI1 Hsr Hkm). intros ρ2 ds HI2 Hlen.
       nb. rewrite fail_check_sem with (ds := ds).
       + apply bind_ext. intros oks. destruct (first_false oks ds); [reflexivity|].
         apply (IH (S k) nss ne En); [lia|exact HI2].
@@ -1227,7 +1200,7 @@ Section Steps.
     is_async cfg = false -> is_spawn cfg && Nat.ltb 1 (active_count j k) = true ->
     Inv ρ st -> k < j_max j -> gen_step j k vars (n_sr k) = Ok step ->
     forall A (K : env -> comp A) (K' : dval -> comp A),
-      (forall ρ' srv, Inv ρ' st -> ρ' (n_sr k) = Some srv -> not_clo srv -> K ρ' = K' srv) ->
+      (forall ρ' srv, Inv ρ' st -> ρ' (n_sr k) = Some srv -> K ρ' = K' srv) ->
       bind (execs step ρ) K = bind (step_result msem dotsem callsem awaitsem sp k st) K'.
   Proof.
     intros Ha Hs HI Hk Hg A K K' HK.
@@ -1314,7 +1287,7 @@ Section Steps.
     { intros v. unfold join_unwrap. destruct v; nb; reflexivity. }
     rewrite (mapM_ext_in _ _ _ (fun v _ => HG v)).
     apply bind_ext. intros vs. nb.
-    apply HK; [|apply upd_same|exact I].
+    apply HK; [|apply upd_same].
     apply Inv_upd_temp; [|apply temp_sr]. apply Inv_upd_temp; [exact HI2|apply temp_sr].
   Qed.
 
@@ -1375,7 +1348,7 @@ Section Steps.
     set (G := fun b => let! d := chain msem dotsem callsem sp (snapρ ρ) cp k st b in
                        if is_spawn cfg then match d with DFut _ | DV _ => Ret d | _ => Panic P_ILLTYPED end else Ret d).
     assert (HK' : forall v, K (upd (ext_env ρ cp) (n_sr k) (DV v)) = K' (DV v)).
-    { intros v. apply HK; [apply Inv_upd_temp; [exact HI'|apply temp_sr]|apply upd_same|exact I]. }
+    { intros v. apply HK; [apply Inv_upd_temp; [exact HI'|apply temp_sr]|apply upd_same]. }
     destruct (Nat.ltb 1 (active_count j k)) eqn:Hm.
     - (* several active branches: join! / try_join! *)
       assert (Hchain : Forall2 (fun c b => D c (ext_env ρ cp) = G b) cs (actives sp k)).
@@ -1530,31 +1503,31 @@ Section Steps.
       + cbv zeta in Ej.
         destruct (filter (fun b => negb (is_active j k b)) (seq 0 n)) as [|i0 ir] eqn:Ef.
         * inversion Ej; subst ss e. rewrite den_RBlock.
-          apply (Hstep k ρ st step HI Hkm Es). intros ρ1 srv HI1 Hsr Hnc.
+          apply (Hstep k ρ st step HI Hkm Es). intros ρ1 srv HI1 Hsr.
           rewrite den_RMatchOk, den_RVar, Hsr. nb.
           destruct srv as [[]| | | | | |]; try reflexivity.
           rewrite den_RBlock. cbn [execs]. nb.
           apply (extract_refines k (upd ρ1 (n_sr k) (DV v)) st (DV v)
-                   (Inv_upd_temp _ _ _ (DV v) HI1 (temp_sr k)) (upd_same _ _ _) I Hkm).
+                   (Inv_upd_temp _ _ _ (DV v) HI1 (temp_sr k)) (upd_same _ _ _) Hkm).
           intros ρ2 ds HI2 _. nb. rewrite den_ROk, (final_tuple_sem ρ2 _ HI2). reflexivity.
         * destruct Ej as (t & Etr & Eb). inversion Eb; subst ss e. rewrite den_RBlock.
-          apply (Hstep k ρ st step HI Hkm Es). intros ρ1 srv HI1 Hsr Hnc.
+          apply (Hstep k ρ st step HI Hkm Es). intros ρ1 srv HI1 Hsr.
           rewrite den_RMatchOk, den_RVar, Hsr. nb.
           destruct srv as [[]| | | | | |]; try reflexivity.
           rewrite den_RBlock. cbn [execs]. nb.
           apply (extract_refines k (upd ρ1 (n_sr k) (DV v)) st (DV v)
-                   (Inv_upd_temp _ _ _ (DV v) HI1 (temp_sr k)) (upd_same _ _ _) I Hkm).
+                   (Inv_upd_temp _ _ _ (DV v) HI1 (temp_sr k)) (upd_same _ _ _) Hkm).
           intros ρ2 ds HI2 _. nb.
           apply (transposer_sem (tuple_of vars) final_tuple_sem (i0 :: ir) t Etr); [|exact HI2].
           intros b Hb. rewrite <- Ef in Hb. apply filter_In in Hb. destruct Hb as [Hb _]. apply in_seq in Hb. lia.
       + inversion Ej; subst ss e. rewrite den_RBlock.
-        apply (Hstep k ρ st step HI Hkm Es). intros ρ1 srv HI1 Hsr Hnc.
+        apply (Hstep k ρ st step HI Hkm Es). intros ρ1 srv HI1 Hsr.
         rewrite den_RMatchOk, den_RVar, Hsr. nb.
         destruct srv as [[]| | | | | |]; reflexivity.
     - replace (Nat.ltb k (j_max j - 1)) with true in Ej by (symmetry; apply Nat.ltb_lt; lia).
       destruct Ej as (nss & ne & -> & Eb). inversion Eb; subst ss e. cbn [Nat.eqb].
       rewrite den_RBlock.
-      apply (Hstep k ρ st step HI Hkm Es). intros ρ1 srv HI1 Hsr Hnc.
+      apply (Hstep k ρ st step HI Hkm Es). intros ρ1 srv HI1 Hsr.
       rewrite den_RMatchOk, den_RVar, Hsr. nb.
       destruct srv as [[]| | | | | |]; try reflexivity.
       rewrite den_RBlock. cbn [app]. rewrite execs_cons, exec_SLet_ident.
@@ -1563,11 +1536,8 @@ Section Steps.
       rewrite (rewrap_sem k ρa v (upd_same _ _ _) Hne). nb.
       eapply bind_ext_leaves; [apply rewrap_DV|]. intros rew Hrew. nb. fold (rewrapped rew).
       rewrite execs_cons. nb.
-      assert (Hrnc : not_clo (rewrapped rew)).
-      { unfold rewrapped. destruct rew as [|d [|]]; try exact I.
-        inversion Hrew; subst. destruct d; try contradiction. exact I. }
       apply (extract_refines k (upd ρa (n_sr k) (rewrapped rew)) st (rewrapped rew)
-               (Inv_upd_temp _ _ _ (rewrapped rew) HIa (temp_sr k)) (upd_same _ _ _) Hrnc Hkm).
+               (Inv_upd_temp _ _ _ (rewrapped rew) HIa (temp_sr k)) (upd_same _ _ _) Hkm).
       intros ρ2 ds HI2 _. nb. rewrite <- den_RBlock.
       apply (IH (S k) nss ne En); [lia|exact HI2].
   Qed.
@@ -1626,7 +1596,6 @@ Section Steps.
     - intros Ha'. congruence.
     - intros _ Ha'. congruence.
     - intros Hs _. rewrite Hs. apply upd_same.
-    - intros b d Hn. rewrite st0_nth in Hn. discriminate.
   Qed.
 
   Theorem gen_output_async e :
